@@ -15,6 +15,7 @@ import ast
 from ..astutil import calls_in, call_name, where
 from ..cfg import build_cfg, enclosing_handlers
 from ..logic import known
+from ..symtext import Expander
 from ..model import AnalysisError, unparse, walk_no_nested
 from .rules_order import compute_before_open, is_write_open
 
@@ -90,11 +91,15 @@ def run(prog, rep):
         g = build_cfg(f)
         me, url = f.params[0], f.params[1]
         entry = "%s.loading[%s]" % (me, url)
+        x = Expander(f, g)
         reg = _node_with(g, lambda n: n.kind == "stmt" and isinstance(n.ast, ast.Assign) and unparse(n.ast.targets[0]) == entry)
-        start = _node_with(g, lambda n: n.kind == "stmt" and unparse(n.ast) == entry + ".start()")
+        regval = x.text(reg[0].ast.value, reg[0]) if len(reg) == 1 else "?"
+        start = _node_with(g, lambda n: n.kind == "stmt" and isinstance(n.ast, ast.Expr) and isinstance(n.ast.value, ast.Call)
+                           and isinstance(n.ast.value.func, ast.Attribute) and n.ast.value.func.attr == "start"
+                           and x.text(n.ast.value.func.value, n) in (entry, regval))
         ok = len(reg) == 1 and len(start) == 1 and g.dominates(reg[0], start[0])
         if ok:
-            v = reg[0].ast.value
+            v = x.expand(reg[0].ast.value, reg[0])
             ok = isinstance(v, ast.Call) and call_name(v).endswith("Thread") and \
                 any(k.arg == "target" and unparse(k.value) == "%s._load" % me for k in v.keywords) and \
                 any(k.arg == "args" and unparse(k.value) == "(%s,)" % url for k in v.keywords)
@@ -102,12 +107,13 @@ def run(prog, rep):
                   "%s.deferred_load does not (register Thread(target=self._load, args=(url,)) under loading[url], then start it)" % cname, f.where,
                   witness="load() called right after deferred_load() does not find the running loader and loads a second time")
         if len(reg) == 1:
-            def classify(leaf, me=me, url=url):
+            def classify(leaf, me=me, url=url, x=x):
                 if isinstance(leaf, ast.Compare) and len(leaf.ops) == 1 and isinstance(leaf.ops[0], ast.In) and unparse(leaf.left) == url:
-                    c0 = unparse(leaf.comparators[0])
+                    c0 = x.text(leaf.comparators[0])
                     return {me: "LOADED", "%s.loading" % me: "LOADING"}.get(c0)
                 return None
-            good = known(g, reg[0], classify, lambda a: not a["LOADED"] and not a["LOADING"], ["LOADED", "LOADING"])
+            good = known(g, reg[0], classify, lambda a: not a["LOADED"], ["LOADED"]) and \
+                known(g, reg[0], classify, lambda a: not a["LOADING"], ["LOADING"])
             rep.check(good, "ORDER-3", "%s.deferred_load only for unknown URLs" % cname, "every path to the registration knows: not loaded, not loading",
                       "the loader is started although the URL may be loaded or loading already", f.where,
                       witness="two loaders for one URL; the second overwrites the registration of the first")
@@ -118,17 +124,20 @@ def run(prog, rep):
         rep.saw_function(f)
         g = build_cfg(f)
         me, url = f.params[0], f.params[1]
-        join = _node_with(g, lambda n: n.kind == "stmt" and unparse(n.ast) == "%s.loading[%s].join()" % (me, url))
-        pop = _node_with(g, lambda n: n.kind == "stmt" and unparse(n.ast).startswith("%s.loading.pop(%s" % (me, url)))
+        x = Expander(f, g)
+        join = _node_with(g, lambda n: n.kind == "stmt" and isinstance(n.ast, ast.Expr) and isinstance(n.ast.value, ast.Call)
+                          and isinstance(n.ast.value.func, ast.Attribute) and n.ast.value.func.attr == "join"
+                          and x.text(n.ast.value.func.value, n) == "%s.loading[%s]" % (me, url))
+        pop = _node_with(g, lambda n: n.kind == "stmt" and x.text(n.ast, n).startswith("%s.loading.pop(%s" % (me, url)))
         retry = [n for n in g.nodes if any(call_name(c) == "%s.load" % me for r in n.expr_roots() for c in calls_in(r))]
         ok = len(join) == 1 and len(pop) == 1 and len(retry) == 1 and g.dominates(join[0], pop[0]) and g.dominates(pop[0], retry[0])
         rep.check(ok, "ORDER-4", "%s.load: join, then pop, then retry" % cname, "ok",
                   "%s.load does not join the loader before removing its registration and retrying" % cname, f.where,
                   witness="load() returns None / loads again while the loader thread is still running")
         if ok:
-            def classify4(leaf, me=me, url=url):
+            def classify4(leaf, me=me, url=url, x=x):
                 if isinstance(leaf, ast.Compare) and len(leaf.ops) == 1 and isinstance(leaf.ops[0], ast.In) and unparse(leaf.left) == url \
-                        and unparse(leaf.comparators[0]) == "%s.loading" % me:
+                        and x.text(leaf.comparators[0]) == "%s.loading" % me:
                     return "LOADING"
                 return None
             rep.check(known(g, join[0], classify4, lambda a: a["LOADING"], ["LOADING"]), "ORDER-4", "%s.load joins only registered loaders" % cname, "ok",
